@@ -98,6 +98,11 @@ class SET(T):
         (s,) = shape_sorts(sh)
         return SetV(sh, z3.Const(fresh_name(name), z3.ArraySort(s, z3.BoolSort())))
 
+    def shape(self):
+        from .values import SetShape
+
+        return SetShape(self.elem.shape())
+
 
 class MAP(T):
     def __init__(self, key, val, ordered=True):
